@@ -799,6 +799,10 @@ theorem step_preserves {n n' : Node} {op : Op} {acc : Bool} (hI : Inv n) (hf : F
       | panic => simp only [hr] at hs; cases hs; exact hI0
   | approve h inv now =>
     simp only [Node.exec] at hs
+    cases hfull : (n0.full && (n0.invoices h).isNone) with
+    | true => simp only [hfull, ↓reduceIte] at hs; cases hs; exact hI0
+    | false =>
+    simp only [hfull, Bool.false_eq_true, ↓reduceIte] at hs
     have hf0 : n0.invoices h = none → ∀ c, c < n0.nch → outL n0 c h = 0 := by
       subst hn0; exact hf
     cases hr : n0.approve h inv now with
